@@ -758,6 +758,88 @@ def _flag_guards(fi: FuncInfo, guards: list) -> list:
     return extra
 
 
+def implied_atoms(test, pol: bool = True) -> list:
+    """(atom, polarity) pairs that certainly hold when `test` evaluates to `pol`: flattens not / and / or and
+    conditional expressions with a constant branch (`False if not c else E` true => c and E)."""
+    if isinstance(test, ast.UnaryOp) and isinstance(test.op, ast.Not):
+        return implied_atoms(test.operand, not pol)
+    if isinstance(test, ast.BoolOp):
+        if isinstance(test.op, ast.And) == pol:
+            out = []
+            for v in test.values:
+                out += implied_atoms(v, pol)
+            return out
+        return []
+    if isinstance(test, ast.IfExp):
+        b, o = test.body, test.orelse
+        def const(x):
+            return isinstance(x, ast.Constant) and (isinstance(x.value, bool) or x.value is None)
+        if const(b) and bool(b.value) != pol:       # body cannot give `pol`: the else branch was taken
+            return implied_atoms(test.test, False) + implied_atoms(o, pol)
+        if const(o) and bool(o.value) != pol:
+            return implied_atoms(test.test, True) + implied_atoms(b, pol)
+        return []
+    if isinstance(test, ast.Call) and isinstance(test.func, ast.Name) and test.func.id == "bool" and len(test.args) == 1:
+        return implied_atoms(test.args[0], pol)
+    return [(test, pol)]
+
+
+def atoms_at(fi: FuncInfo, node) -> list:
+    """all atoms known to hold when `node` is evaluated (from every guard, flattened), plus what is known about
+    locals that are tested for presence: a name that is non-None carries the guards of its non-None definitions."""
+    out = []
+    for g in guards_of(fi, node):
+        for a, p in implied_atoms(g.test, g.polarity):
+            out.append((a, p))
+    extra = []
+    for a, p in list(out):
+        nm = None
+        if isinstance(a, ast.Name) and p:
+            nm = a.id
+        elif isinstance(a, ast.Compare) and len(a.ops) == 1 and isinstance(a.left, ast.Name) and isinstance(a.comparators[0], ast.Constant) \
+                and a.comparators[0].value is None:
+            if (isinstance(a.ops[0], ast.IsNot) and p) or (isinstance(a.ops[0], ast.Is) and not p):
+                nm = a.left.id
+        if nm is not None:
+            extra += value_guards(fi, nm)
+    return out + extra
+
+
+def value_guards(fi: FuncInfo, name: str, depth: int = 0) -> list:
+    """atoms that hold whenever local `name` is not None/falsy: common to all its non-None definitions"""
+    if depth > 4 or name in fi.params():
+        return []
+    defs = local_defs(fi, name)
+    sets = []
+    for v, st in defs:
+        if v is None:
+            return []
+        vals = [v]
+        if isinstance(v, ast.IfExp):
+            vals = []
+            for br, pol in ((v.body, True), (v.orelse, False)):
+                if not (isinstance(br, ast.Constant) and br.value in (None, False)):
+                    vals.append((br, implied_atoms(v.test, pol)))
+        else:
+            vals = [(v, [])]
+        for val, pre in vals:
+            if isinstance(val, ast.Constant) and val.value in (None, False):
+                continue
+            here = list(pre)
+            if hasattr(st, "lineno") and isinstance(st, ast.stmt):
+                for g in guards_of(fi, st):
+                    here += implied_atoms(g.test, g.polarity)
+            if isinstance(val, ast.Name) and val.id != name:
+                here += value_guards(fi, val.id, depth + 1)
+            sets.append({(unparse(a), p): (a, p) for a, p in here})
+    if not sets:
+        return []
+    common = set(sets[0])
+    for s_ in sets[1:]:
+        common &= set(s_)
+    return [sets[0][k] for k in common]
+
+
 def _ancestors(fi: FuncInfo, node):
     cur = node
     while cur in fi.parents:
@@ -823,8 +905,9 @@ def enclosing_stmt(fi: FuncInfo, node: ast.AST) -> ast.stmt:
     return cur
 
 
-def try_handlers_covering(fi: FuncInfo, node: ast.AST) -> list[tuple[ast.Try, ast.ExceptHandler]]:
-    """(try, handler) pairs whose *body* contains `node`, innermost first."""
+def try_handlers_covering(fi: FuncInfo, node: ast.AST) -> list[tuple[ast.AST, ast.ExceptHandler]]:
+    """(try, handler) pairs whose *body* contains `node`, innermost first.  `with contextlib.suppress(E):` counts
+    as `try: ... except E: pass`."""
     out = []
     cur = node
     parents = fi.parents
@@ -833,6 +916,15 @@ def try_handlers_covering(fi: FuncInfo, node: ast.AST) -> list[tuple[ast.Try, as
         if isinstance(par, ast.Try) and _field_of(par, cur) == "body":
             for h in par.handlers:
                 out.append((par, h))
+        if isinstance(par, ast.With) and _field_of(par, cur) == "body":
+            for it in par.items:
+                ce = it.context_expr
+                if isinstance(ce, ast.Call) and (attr_chain(ce.func) or "").split(".")[-1] == "suppress":
+                    typ = ce.args[0] if len(ce.args) == 1 else ast.Tuple(elts=list(ce.args), ctx=ast.Load())
+                    h = ast.ExceptHandler(type=typ, name=None, body=[ast.Pass()])
+                    h.lineno = par.lineno
+                    h._suppress_with = par
+                    out.append((par, h))
         cur = par
     return out
 
